@@ -15,7 +15,7 @@ VARIABLES v, hist
 vars == <<v, hist>>
 
 R0 == [phase |-> "new", sid |-> 0, res |-> 0, outcome |-> "none", sHdr |-> FALSE, sES |-> FALSE, sRst |-> FALSE, sBad |-> FALSE,
-       body |-> 0, sentBody |-> 0, sentES |-> FALSE, win |-> 0, canceled |-> FALSE, rbytes |-> 0]
+       body |-> 0, sentBody |-> 0, sentES |-> FALSE, win |-> 0, canceled |-> FALSE, rbytes |-> 0, interims |-> 0]
 V0 == [r |-> [i \in Reqs |-> R0], nextSid |-> 1, goaway |-> FALSE, gaLast |-> 0, closed |-> FALSE, winC |-> 5, initWin |-> 2, mfs |-> 1, nf |-> 0,
        openedAfterGoAway |-> FALSE]
 
@@ -55,6 +55,11 @@ SrvHeaders == \E i \in Reqs, es \in BOOLEAN, bad \in BOOLEAN :
   /\ (bad => "bad" \in Ops)
   /\ LET v1 == [v EXCEPT !.r[i].sHdr = TRUE, !.r[i].sES = es, !.r[i].sBad = bad]
      IN Step(Ev("resp", i, IF bad THEN 1 ELSE 0, 0, es), IF bad THEN Resolve(v1, i, "err") ELSE IF es THEN Resolve(v1, i, "ok") ELSE v1)
+
+\* an informational (1xx) response: any number of them may precede the final one; they resolve nothing
+SrvInterim == \E i \in Reqs :
+  /\ "interim" \in Ops /\ v.r[i].sid # 0 /\ ~v.r[i].sHdr /\ ~v.r[i].sRst /\ v.r[i].interims < 2
+  /\ Step(Ev("resp", i, 2, 0, FALSE), [v EXCEPT !.r[i].interims = @ + 1])
 
 SrvData == \E i \in Reqs, n \in RespSizes, es \in BOOLEAN :
   /\ "data" \in Ops /\ v.r[i].sHdr /\ ~v.r[i].sES /\ ~v.r[i].sRst /\ ~v.r[i].sBad
@@ -105,7 +110,7 @@ Cancel == \E i \in Reqs :
   /\ Step(Ev("cancel", i, 0, 0, FALSE), [v EXCEPT !.r[i].canceled = TRUE, !.r[i].phase = "done", !.r[i].res = 1, !.r[i].outcome = "canceled"])
 
 Init == v = V0 /\ hist = <<>>
-Next == Call \/ SrvHeaders \/ SrvData \/ SrvRst \/ SrvGoAway \/ SrvWU \/ SrvSettings \/ SrvMfs \/ SrvClose \/ UserClose \/ Cancel
+Next == Call \/ SrvHeaders \/ SrvInterim \/ SrvData \/ SrvRst \/ SrvGoAway \/ SrvWU \/ SrvSettings \/ SrvMfs \/ SrvClose \/ UserClose \/ Cancel
 Spec == Init /\ [][Next]_vars
 View == v
 
